@@ -2,6 +2,7 @@ import Holpy.C18.ProofsRes
 import Holpy.C18.ProofsHyps
 import Holpy.C18.ProofsEq
 import Holpy.C18.ProofsSimp
+import Holpy.C18.ProofsSimp2
 namespace Holpy.C18
 open Tm
 
@@ -11,6 +12,9 @@ theorem evalRule_sound' (I : Interp) (hI : I.LeOrder) (r : Rule) (cl : List Tm) 
   cases r <;> simp only [evalRule] at h
   case thResolution => exact thResolution_sound I _ _ _ _ h hp
   case eqReflexive => exact eqReflexive_sound I _ _ h
+  case iteSimplify => exact iteSimplify_sound I _ _ h (by simp only [wellKinded] at hk ⊢; exact hk)
+  case connectiveDef => exact connectiveDef_sound I _ _ h (by simp only [wellKinded] at hk ⊢; exact hk)
+  case subproof => exact subproof_sound I _ _ _ h hp
   case notSimplify => exact notSimplify_sound I _ _ h (by simpa [wellKinded] using hk)
   case andSimplify => exact andSimplify_sound I _ _ h (by simpa [wellKinded] using hk)
   case orSimplify => exact orSimplify_sound I _ _ h (by simpa [wellKinded] using hk)
@@ -91,8 +95,11 @@ theorem evalRule_hyps' (r : Rule) (cl : List Tm) (sizes : List Nat) (ps : List S
   case notIte2 => exact notIte2_hyps _ _ _ h
   case contraction => exact contraction_hyps _ _ _ h
   case transRule => exact transRule_hyps _ _ _ h
+  case subproof => exact subproof_hyps _ _ _ h
   all_goals (intro x hx; exfalso)
   case eqReflexive => simp [eqReflexive_hyps _ _ h] at hx
+  case iteSimplify => simp [iteSimplify_hyps _ _ h] at hx
+  case connectiveDef => simp [connectiveDef_hyps _ _ h] at hx
   case notSimplify => simp [notSimplify_hyps _ _ h] at hx
   case andSimplify => simp [andSimplify_hyps _ _ h] at hx
   case orSimplify => simp [orSimplify_hyps _ _ h] at hx
